@@ -103,3 +103,60 @@ def norm_cond(n, tail=False):
                 l, r, pol = b, a, False
             return Lit("%s < %s" % (render(l), render(r)), pol, s, "lt", l, r)
     return Lit(render(s), True, s, "truth")
+
+
+def eval_str_cases(e, pname):
+    """Truth of the pure condition e for a string parameter `pname` in three cases: 'null' (p == NULL),
+    'empty' (p != NULL, *p == 0), 'text' (p != NULL, *p != 0).  Returns {case: True/False} or None when e uses
+    anything else.  Evaluating *p with p == NULL raises (the condition dereferences NULL): reported as 'deref'."""
+    class Deref(Exception):
+        pass
+
+    class Unknown(Exception):
+        pass
+
+    def is_p(n):
+        n = n.strip()
+        return n.k == "DeclRefExpr" and n.j.get("name") == pname
+
+    def ev(n, case):
+        n = n.strip()
+        if n.is_null_const():
+            return 0
+        cv = n.const_value()
+        if cv is not None:
+            return cv
+        if is_p(n):
+            return 0 if case == "null" else 1
+        if (n.k == "UnaryOperator" and n.j.get("op") == "*" and is_p(n.children[0])) or \
+           (n.k == "ArraySubscriptExpr" and is_p(n.children[0]) and n.children[1].const_value() == 0):
+            if case == "null":
+                raise Deref()
+            return 0 if case == "empty" else 65
+        if n.k == "CallExpr" and n.j.get("callee") == "strlen" and len(n.call_args()) == 1 and is_p(n.call_args()[0]):
+            if case == "null":
+                raise Deref()
+            return 0 if case == "empty" else 3
+        if n.k == "UnaryOperator" and n.j.get("op") == "!":
+            return 0 if ev(n.children[0], case) else 1
+        if n.k == "BinaryOperator":
+            op = n.j.get("op")
+            if op == "&&":
+                return 1 if (ev(n.children[0], case) and ev(n.children[1], case)) else 0
+            if op == "||":
+                return 1 if (ev(n.children[0], case) or ev(n.children[1], case)) else 0
+            if op in ("==", "!=", "<", ">", "<=", ">="):
+                a, b = ev(n.children[0], case), ev(n.children[1], case)
+                if (a > 3 or b > 3) and not (a == 0 or b == 0):
+                    raise Unknown()     # comparing the text character with a specific value
+                return int({"==": a == b, "!=": a != b, "<": a < b, ">": a > b, "<=": a <= b, ">=": a >= b}[op])
+        raise Unknown()
+    out = {}
+    for case in ("null", "empty", "text"):
+        try:
+            out[case] = bool(ev(e, case))
+        except Deref:
+            out[case] = "deref"
+        except Unknown:
+            return None
+    return out
